@@ -569,6 +569,61 @@ fn c15_post(plan: &mut LPlan, seed: u64) {
     inject_ack_nak_noise(plan, seed, 10, 40);
 }
 
+fn sel_l_profile(index: u64) -> Profile {
+    let mut p = Profile::base("sel_l");
+    p.links_lo = 2;
+    p.force_classic = Some(false);
+    p.force_guard = Some(index % 5 != 4);
+    p.p_fault_free = 0.1;
+    p.net_loss = index % 2 == 0;
+    p.blackholes = true;
+    p.link_loss = index % 3 == 0;
+    p.receiver_restart = index % 4 == 0;
+    p.config_changes = index % 3 == 1;
+    p.low_stall_threshold_bias = true;
+    p.heavy_rate_bias = true;
+    p.horizon_lo_ms = 8_000;
+    p.horizon_hi_ms = 20_000;
+    p.max_bursts = 8;
+    p
+}
+
+fn sel_l_post(plan: &mut LPlan, seed: u64) {
+    c04_post(plan, seed);
+}
+
+fn c03l_post(plan: &mut LPlan, seed: u64) {
+    use crate::lsim::plan::{Action, TimedAction};
+    c04_post(plan, seed);
+    let mut r = crate::prng::Rng::new(seed ^ 0xC03);
+    let (lo, hi) = traffic_window(plan);
+    match r.below(3) {
+        0 => {
+            // a gated link becomes the only one left: black-hole it under load, then reload to it alone
+            let l = r.below(plan.n_links as u64) as usize;
+            let t1 = r.range(lo + 200, (lo + 4000).min(hi.saturating_sub(3000)).max(lo + 201));
+            plan.actions.push(TimedAction { t: t1, kind: Action::Blackhole { link: l, up: true, down: true, on: true } });
+            plan.actions.push(TimedAction {
+                t: t1 + r.range(400, 2500),
+                kind: Action::Reload { text: Some(format!("{}\n", crate::lsim::path_ip(l))) },
+            });
+            plan.cfg.stall_guard = true;
+        }
+        1 => {
+            // every link quality-gated right after a tick (ticks fall on whole seconds of the run)
+            let mut t = ((lo / 1000) + 1) * 1000 + r.range(5, 60);
+            while t + 1000 < hi {
+                for l in 0..plan.n_links {
+                    plan.actions.push(TimedAction { t, kind: Action::SetGlue { link: l, weak: r.chance(0.8), loss_degraded: r.chance(0.5) } });
+                }
+                t += 1000 * r.range(1, 3);
+            }
+        }
+        _ => {}
+    }
+    plan.actions.sort_by_key(|a| a.t);
+}
+
 fn c19_profile(index: u64) -> Profile {
     let mut p = Profile::base("c19");
     p.p_fault_free = 0.0;
@@ -869,6 +924,8 @@ impl Check for Multi {
     fn engine(&self) -> &'static str {
         if self.parts.iter().any(|p| p.engine() == "S") {
             "T+S"
+        } else if self.parts[0].engine() == "K" {
+            "K+L"
         } else if self.parts.iter().any(|p| p.engine() == "K") {
             "L+K"
         } else {
@@ -980,6 +1037,45 @@ pub fn all() -> Vec<Box<dyn Check>> {
         v.insert(pos, Box::new(Multi { id: "C02", parts: vec![l, k], weights: vec![1, 25] }));
     }
     v.extend(k_checks());
+    // C03: engine K histories plus drop detection on the real shell (override, reload, glue stamps)
+    {
+        let pos = v.iter().position(|c| c.id() == "C03").unwrap();
+        let k = v.remove(pos);
+        let l = Box::new(LCheck {
+            id: "C03",
+            level: "exploration",
+            profile: sel_l_profile,
+            post: Some(c03l_post),
+            monitors: || vec![Box::new(crate::mon::sel_l::C03L::new()) as Box<dyn Monitor>],
+            quick_runs: 300,
+            thorough_runs: 15_000,
+            rule: "closed-loop runs on the real shell (2..4 uplinks, guard mostly on with low thresholds, black holes, a continuous stream with must-land packets): in a third of the runs a gated link becomes the only one left after a reload, in a third every link is stamped weak / loss-degraded right after a housekeeping tick; whenever the monitor's own usable set is non-empty the client datagram must be queued on some uplink",
+            assumptions: &["the weak / loss-degraded stamps are written directly between two housekeeping ticks (inputs the loop glue writes; the next tick overwrites them)"],
+            probes: &["c03l.decision_with_usable_link", "c03l.every_usable_link_quality_gated", "c03l.single_link_left"],
+        });
+        v.insert(pos, Box::new(Multi { id: "C03", parts: vec![k, l], weights: vec![20, 1] }));
+    }
+    // C11 and C13: engine K histories plus the same monitors on live closed-loop decisions (engine L)
+    for (id, mk) in [
+        ("C11", (|| vec![Box::new(crate::mon::sel_l::C11L::new()) as Box<dyn Monitor>]) as MonFactory),
+        ("C13", (|| vec![Box::new(crate::mon::sel_l::C13L::new()) as Box<dyn Monitor>]) as MonFactory),
+    ] {
+        let pos = v.iter().position(|c| c.id() == id).unwrap();
+        let k = v.remove(pos);
+        let l = Box::new(LCheck {
+            id,
+            level: "exploration",
+            profile: sel_l_profile,
+            post: Some(sel_l_post),
+            monitors: mk,
+            quick_runs: 60,
+            thorough_runs: 6_000,
+            rule: "closed-loop runs on the real shell (2..4 uplinks, stall guard on with low thresholds, black holes, link loss, receiver restarts, run-time configuration changes, a continuous stream): every routing decision after establishment is turned into the same observation record engine K uses and judged by the same monitor code, with liveness / proof clocks taken from the link state before the step",
+            assumptions: &["in engine-L runs the proof and liveness stamps are read from the link state before the decision (C09 checks that they are stamped correctly); decisions the must-land override may have replaced are not judged for C11"],
+            probes: if id == "C11" { &["c11l.decisions"] } else { &["c13l.decisions"] },
+        });
+        v.insert(pos, Box::new(Multi { id, parts: vec![k, l], weights: vec![100, 1] }));
+    }
     v.push(Box::new(Multi {
         id: "C18",
         parts: vec![Box::new(crate::tsim::c18::C18Check), Box::new(crate::ssim::C18S)],
